@@ -7,7 +7,7 @@ import MdsVerif.Drv.C05
 recent first; `lastPos log x` is the index in the most recent callback for `x`.
 
 `C06_positions`: for **every configuration** of the index arithmetic with `parent i < i` (i > 0) and
-`left i > i` that does not sift up in `pop` (in particular the pinned one regenerated from heapq.go,
+`left i > i` that does not sift up in `pop` (`Proofs.Heapq.CfgSafe`; in particular the pinned one regenerated from heapq.go,
 `C06_current`), every comparison function (no order axioms are needed), and every history of
 `Add / Pop / Remove i / Set / Reorder / Clear / NewWithData` (and the observers) over pairwise
 distinct elements, after every operation each held element that entered through `Add` or `Set`
@@ -59,12 +59,8 @@ def distinctOp (s : S α) : Op α → Prop
 instance (s : S α) (op : Op α) : Decidable (distinctOp s op) := by
   cases op <;> simp only [distinctOp] <;> infer_instance
 
-/-- the configurations the theorem covers -/
-structure CfgC06 (cfg : Cfg) : Prop extends CfgOK cfg where
-  noSiftUp : cfg.popSiftsUp = false
-
 section
-variable {cfg : Cfg} (hc : CfgC06 cfg) (lt : α → α → Bool)
+variable {cfg : Cfg} (hc : CfgSafe cfg) (lt : α → α → Bool)
 include hc
 
 /-- one operation keeps the invariant -/
@@ -160,7 +156,7 @@ end
 /-! ### the current source -/
 
 /-- the configuration regenerated from heapq.go is in the class (F1's `i / 2` is still `< i`) -/
-theorem C06_current : CfgC06 Drv.C05.cfg where
+theorem C06_current : CfgSafe Drv.C05.cfg where
   parent_lt := fun i hi => by simp only [Drv.C05.cfg, Gen.Heapq.parentIdx]; omega
   left_gt := fun i => by simp only [Drv.C05.cfg, Gen.Heapq.leftIdx]; omega
   noSiftUp := rfl
